@@ -8,23 +8,59 @@ ENV = dict(os.environ, ASAN_OPTIONS="detect_leaks=0:abort_on_error=0:allocator_m
 SEM_SEEN = []
 
 
-def run_batch(exe, scripts, timeout=600, per_script_timeout=20, max_hangs=2):
+def _run_watched(exe, text, timeout, stall):
+    """run exe with `text` on stdin; returns (stdout, stderr, returncode, timed_out).  Killed when it runs longer than `timeout`
+    or writes nothing to stdout for `stall` seconds."""
+    import selectors, tempfile, time, os
+    with tempfile.TemporaryFile() as ferr, tempfile.TemporaryFile() as fin:
+        fin.write(text.encode()); fin.seek(0)
+        p = subprocess.Popen([str(exe)], stdin=fin, stdout=subprocess.PIPE, stderr=ferr, env=ENV)
+        sel = selectors.DefaultSelector()
+        sel.register(p.stdout, selectors.EVENT_READ)
+        chunks, t0, tlast, timed = [], time.time(), time.time(), False
+        while True:
+            ev = sel.select(timeout=1.0)
+            now = time.time()
+            if ev:
+                b = os.read(p.stdout.fileno(), 1 << 16)
+                if not b:
+                    break
+                chunks.append(b)
+                tlast = now
+            if now - t0 > timeout or now - tlast > stall:
+                timed = True
+                p.kill()
+                break
+        if timed:
+            for _ in range(50):                  # what is still in the pipe (never wait for children that keep it open)
+                if not sel.select(timeout=0.1):
+                    break
+                b = os.read(p.stdout.fileno(), 1 << 16)
+                if not b:
+                    break
+                chunks.append(b)
+        sel.close()
+        p.wait()
+        ferr.seek(0)
+        err = ferr.read().decode(errors="replace")
+        out = b"".join(chunks).decode(errors="replace")
+        if timed:
+            return out, "TIMEOUT", -9, True
+        return out, err, p.returncode, False
+
+
+def run_batch(exe, scripts, timeout=600, per_script_timeout=20, max_hangs=2, stall=150):
     """scripts: list of (id, [lines]).  returns {id: dict(out=[lines], crash=None|text)}.
     A batch that does not finish within `timeout` counts as a hang of the script it stopped in; after a hang the remaining
     scripts get at most 90 s, and after `max_hangs` hangs the rest is not run (one hanging input is a finding; waiting for
-    the same loop hundreds of times is not)."""
+    the same loop hundreds of times is not).  Independently of `timeout`, a process that writes nothing for `stall` seconds is
+    taken to hang (the harnesses flush at every script marker, so this bounds one script, not the batch)."""
     res = {}
     pending = list(scripts)
     hangs = 0
     while pending:
         text = "".join("--- %s\n%s\n" % (sid, "\n".join(lines)) for sid, lines in pending)
-        try:
-            p = subprocess.run([str(exe)], input=text, stdout=subprocess.PIPE, stderr=subprocess.PIPE, text=True,
-                               timeout=max(timeout, per_script_timeout), env=ENV, errors="replace")
-            out, err, rc, timed = p.stdout, p.stderr, p.returncode, False
-        except subprocess.TimeoutExpired as e:
-            out = (e.stdout or b"").decode(errors="replace") if isinstance(e.stdout, bytes) else (e.stdout or "")
-            err, rc, timed = "TIMEOUT", -9, True
+        out, err, rc, timed = _run_watched(exe, text, max(timeout, per_script_timeout), stall)
         cur = None
         seen = []
         for line in out.splitlines():
